@@ -78,6 +78,18 @@ def _steps(z, rel=1e-3, floor=0.1):
     return rel * np.maximum(np.abs(np.asarray(z, dtype=float)), floor)
 
 
+def sensitivity_error(out, H, H2, S):
+    """Own error estimate of the reference sensitivities: dS = -H^-1 dH S to first order, with |dH| estimated entrywise by the
+    difference of two extrapolated Hessians (base steps h and h/2) plus the rounding floor of the differences.  Entry (k, i) bounds the
+    error of dp_k/d(input i); it is normwise in character (a row whose entries are small can carry the error of the large rows)."""
+    dH = np.abs(0.5 * (H + H.T) - 0.5 * (H2 + H2.T)) + 1e-14 * np.abs(out['H'])
+    try:
+        Hinv = np.linalg.inv(out['H'])
+    except np.linalg.LinAlgError:
+        return np.full(S.shape, np.inf)
+    return np.abs(Hinv) @ dH @ np.abs(S)
+
+
 def _finish(out, g, H, nshow):
     Hs = 0.5 * (H + H.T)
     out['grad'] = g
@@ -112,6 +124,7 @@ def ls_analysis(model, p, x, y, L, prior_idx=(), prior_val=(), prior_err=(), dy=
         return cgrad(lambda q: chi2_ls(model, q, x, yy, L, prior_idx, pr, pe_), pp)
     g = grad(p)
     H, dis = richardson_jac(grad, p, _steps(p, floor=pfloor))
+    H2, _ = richardson_jac(grad, p, 0.5 * _steps(p, floor=pfloor))
     ystep = np.asarray(dy, dtype=float) if dy is not None else 1e-3 * np.maximum(np.abs(y), 1e-3)
     My = linear_jac(lambda yy: grad(p, yy=yy), y, ystep)
     out = dict(richardson_disagreement=dis)
@@ -123,6 +136,7 @@ def ls_analysis(model, p, x, y, L, prior_idx=(), prior_val=(), prior_err=(), dy=
         out['Sp'] = -np.linalg.solve(out['H'], Mp)
     else:
         out['Sp'] = np.zeros((k, 0))
+    out['S_err'] = sensitivity_error(out, H, H2, np.hstack([out['Sy'], out['Sp']]))
     out['chi2'] = float(np.real(chi2_ls(model, p, x, y, L, prior_idx, pv, pe_)))
     return out
 
@@ -144,12 +158,14 @@ def tls_analysis(model, beta, xplus, x, dx, y, dy, pfloor=0.1):
     g = grad(z0)
     steps = np.concatenate([_steps(beta, floor=pfloor), np.maximum(1e-3 * np.abs(x.ravel()), 1e-4)])
     H, dis = richardson_jac(grad, z0, steps)
+    H2, _ = richardson_jac(grad, z0, 0.5 * steps)
     Mx = linear_jac(lambda xx: grad(z0, xx=xx.reshape(shape)), x.ravel(), dx.ravel())
     My = linear_jac(lambda yy: grad(z0, yy=yy), y, dy)
     out = dict(richardson_disagreement=dis)
     _finish(out, g, H, k)
     out['Sx'] = -np.linalg.solve(out['H'], Mx)
     out['Sy'] = -np.linalg.solve(out['H'], My)
+    out['S_err'] = sensitivity_error(out, H, H2, np.hstack([out['Sx'], out['Sy']]))
     out['chi2'] = float(np.real(chi2_tls(model, beta, np.asarray(xplus, dtype=float).reshape(shape), x, dx, y, dy)))
     out['k'] = k
     out['m'] = m
